@@ -142,16 +142,17 @@ PUBLISHED:
     return "\n".join(L)
 
 
-def render_library(tag, feats, other=None, collisions=None, overloads=True):
+def render_library(tag, feats, other=None, collisions=None, overloads=True, xinherit=0, index=0, prev=None):
     """One generated library.  Everything is defined inline so that the header is all a link needs.
     tag: suffix that makes names unique within a module; feats: set of feature names; other: tag of
-    the library whose Base class this one refers to (two libraries per module)."""
+    the library whose Base class this one refers to (several libraries per module); xinherit / index / prev:
+    the inheritance chain across libraries (library `index` of the module, `prev` the tag of the one before)."""
     t = tag
     L = [HEAD % dict(G="LIB_%s_H" % t)]
     if "f_stdstring" in feats or "f_strdefault" in feats:
         L.append("#include <string>")
     if other:
-        L.append('#include "lib_%s.h"' % other)
+        L.append('#include "lib_%s.h"' % (prev or other))
     if "f_macros" in feats:
         L += ["#define VM%s_INT 42" % t, "#define VM%s_NEG (-7)" % t, "#define VM%s_FLT 1.5" % t,
               '#define VM%s_STR "str\\"q\\\\uote"' % t, "#define VM%s_EXPR (1 << 4)" % t,
@@ -347,6 +348,21 @@ private:
              "  double getb() const { return _b; }\n"
              "  Base%(t)s *as_base() { return this; }\n"
              "private:\n  double _b;\n};" % dict(t=t))
+    if xinherit > 1:
+        if index == 0:
+            L.append("class XAnimal%(t)s {\nPUBLISHED:\n  XAnimal%(t)s() {}\n  virtual ~XAnimal%(t)s() {}\n"
+                     "  int legs() const { return 4; }\n  virtual int speak() const { return 1; }\n};\n"
+                     "class XDog%(t)s : public XAnimal%(t)s {\nPUBLISHED:\n  XDog%(t)s() {}\n"
+                     "  int bark() const { return 2; }\n  virtual int speak() const { return 20; }\n};" % dict(t=t))
+        elif index == 1:
+            L.append("class XPuppy%(t)s : public XDog%(o)s {\nPUBLISHED:\n  XPuppy%(t)s() {}\n"
+                     "  int wag() const { return 3; }\n};" % dict(t=t, o=other))
+            if xinherit == 3:
+                L.append("BEGIN_PUBLISH\ninline int count_legs%(t)s(XAnimal%(o)s *a) { return a ? a->legs() : 0; }\nEND_PUBLISH"
+                         % dict(t=t, o=other))
+        else:
+            L.append("class XPup3%(t)s : public XPuppy%(p)s {\nPUBLISHED:\n  XPup3%(t)s() {}\n"
+                     "  int nap() const { return 5; }\n};" % dict(t=t, p=prev))
     L.append("BEGIN_PUBLISH")
     L.append("inline int freefn%(t)s(int a, long long b, unsigned char c, float d, bool e) { return a + (int)b + c + (int)d + e; }\n"
              "inline int use_base%(t)s(Base%(t)s *b) { return b ? b->_v : -1; }" % dict(t=t))
@@ -409,8 +425,9 @@ def header_of(c, i):
     t = c["tags"][i]
     if c.get("raw"):
         return HEAD % dict(G="LIB_%s_H" % t) + c["raw"] + "\n#endif\n"
-    return render_library(t, c["feats"], other=(c["tags"][0] if i == 1 else None),
-                          collisions=c.get("collisions") if i == 0 else None, overloads=c.get("true_names") != 2)
+    return render_library(t, c["feats"], other=(c["tags"][0] if i >= 1 else None),
+                          collisions=c.get("collisions") if i == 0 else None, overloads=c.get("true_names") != 2,
+                          xinherit=c.get("xinherit", 0), index=i, prev=(c["tags"][i - 1] if i >= 1 else None))
 
 
 def case_options(c):
@@ -439,7 +456,6 @@ def build_case(a):
         ld = os.path.join(d, "l" + t)
         os.makedirs(ld)
         dirs.append(ld)
-        other = tags[0] if i == 1 else None
         open(os.path.join(ld, "lib_%s.h" % t), "w").write(header_of(c, i))
     # spec sanity: the generated header is valid C++ (else the generator is wrong, not interrogate)
     rc, out = gxx(["-fsyntax-only", "-x", "c++", os.path.join(dirs[-1], "lib_%s.h" % tags[-1])] + ["-I" + x for x in dirs], d)
@@ -452,7 +468,7 @@ def build_case(a):
         code, dbf = "lib_%s_igate.cxx" % t, "lib_%s.in" % t
         # with -do-module the library IS the module (python: PyInit_<library>, python-native:
         # PyInit_<module>); interrogate's own binding is built with -module X -library X too
-        libname = mod if c.get("do_module") == 2 else "lib" + t
+        libname = mod if c.get("do_module") == 2 else c.get("libname", "lib" + t)
         args = ["-DCPPPARSER", "-S" + os.path.join(REPO, "parser-inc")] + ["-I" + x for x in dirs[:i]] + \
                ["-srcdir", ld, "-module", mod, "-library", libname] + opts + ["-oc", code, "-od", dbf, "lib_%s.h" % t]
         tr = os.path.join(ld, "trace.ndjson")
@@ -558,12 +574,21 @@ def build_case(a):
         want = []
         if be == "-python-native" and not c.get("raw"):
             want = ["Base" + t for t in tags] + ["freefn" + t for t in tags]
+        # methods inherited across the library boundary must be callable on the most derived class
+        calls = []
+        if be == "-python-native" and c.get("xinherit", 0) > 1 and len(tags) >= 2:
+            calls += [("XPuppy" + tags[1], m_, v) for m_, v in (("legs", 4), ("bark", 2), ("speak", 20), ("wag", 3))]
+            if len(tags) == 3:
+                calls += [("XPup3" + tags[2], m_, v) for m_, v in (("legs", 4), ("bark", 2), ("wag", 3), ("nap", 5))]
         # python-native re-emits default arguments as code: call every Dflt function with the argument
         # omitted and compare with what the C++ compiler passes (f_native() calls f() in C++)
         dnames = [n for n, _, _ in DEFAULTS + DEFAULTS_STR] + list(c.get("exec_extra", ()))
         script = ("import sys; sys.path.insert(0, %r); import %s as m; names = dir(m)\n"
                   "missing = [n for n in %r if n not in names and n[0].lower() + n[1:] not in names]\n"
                   "bad = []; n_exec = 0\n"
+                  "for cn, mn, v in %r:\n"
+                  "    got = getattr(getattr(m, cn)(), mn)()\n"
+                  "    if got != v: bad.append((cn + '.' + mn, got, v))\n"
                   "for t in %r:\n"
                   "    cls = getattr(m, 'Dflt' + t, None)\n"
                   "    if cls is None: continue\n"
@@ -575,7 +600,7 @@ def build_case(a):
                   "        got, want = f(), g()\n"
                   "        if got != want: bad.append((n, got, want))\n"
                   "print('MISSING', missing) if missing else (print('DEFAULT-MISMATCH', bad) if bad else print('OK', len(names), n_exec))"
-                  % (d, mod, want, tags, dnames))
+                  % (d, mod, want, calls, tags, dnames))
         p = subprocess.run([sys.executable, "-c", script], stdout=subprocess.PIPE, stderr=subprocess.STDOUT, text=True,
                            timeout=120, cwd=d)
         if p.stdout.startswith("DEFAULT-MISMATCH"):
@@ -601,23 +626,55 @@ def classes_of(c):
     return out
 
 
+MP = ("#ifdef CPPPARSER\n#define MAKE_PROPERTY(n, ...) __make_property(n, __VA_ARGS__)\n#else\n"
+      "#define MAKE_PROPERTY(n, ...)\n#endif\n")
+SIMPLE = "class Plain { public: Plain() {} int f() const { return 1; } };\n"
 KNOWN_CONSTRUCTS = [
-    # (finding id, back-ends, options, header body)
-    ("C03-template-nested-class", (1, 2, 3), {"promiscuous": 2},
-     "template<class T> class Tmpl { public: Tmpl() {} class Inner { public: Inner() {} T v; };\n"
-     "  Inner get() const { return Inner(); } int take(const Inner &i) const { return 1; } };\n"
-     "typedef Tmpl<int> TmplInt;\n"),
-    ("C03-anonymous-struct-member", (1, 2), {"promiscuous": 2},
-     "class Anon { public: Anon() {} struct { int x; int y; } pos; int n; };\n"),
-    ("C03-python-array-parameter", (2,), {"promiscuous": 2},
-     "class Arr { public: Arr() {} int sum(int a[3]) { return a[0]; } };\ninline int gsum(int v[4]) { return v[0]; }\n"),
+    # finding id, tag, back-ends where it shows, options, header that satisfies the predicate, CONTROL: the
+    # nearest header / options that do not (must pass: the measured exactness of the predicate)
+    dict(id="C03-template-nested-class", tag="tnest", backends=(1, 2, 3), opts={"promiscuous": 2},
+         body="template<class T> class Tmpl { public: Tmpl() {} class Inner { public: Inner() {} T v; };\n"
+              "  Inner get() const { return Inner(); } int take(const Inner &i) const { return 1; } };\n"
+              "typedef Tmpl<int> TmplInt;\n",
+         control="class Tmpl { public: Tmpl() {} class Inner { public: Inner() {} int v; };\n"
+                 "  Inner get() const { return Inner(); } int take(const Inner &i) const { return 1; } };\n"),
+    dict(id="C03-anonymous-struct-member", tag="anon", backends=(1, 2), opts={"promiscuous": 2},
+         body="class Anon { public: Anon() {} struct { int x; int y; } pos; int n; };\n",
+         control="class Anon { public: Anon() {} struct Pos { int x; int y; }; Pos pos; int n; };\n"),
+    dict(id="C03-python-array-parameter", tag="arr", backends=(2,), opts={"promiscuous": 2},
+         body="class Arr { public: Arr() {} int sum(int a[3]) { return a[0]; } };\ninline int gsum(int v[4]) { return v[0]; }\n",
+         control="class Arr { public: Arr() {} int sum(int *a) { return a[0]; } };\ninline int gsum(int *v) { return v[0]; }\n"),
+    # distinct C++ names that make_safe_name / the slot name scheme map to ONE identifier
+    dict(id="C03-safe-name-collision", tag="sign", backends=(3,), opts={"promiscuous": 2},
+         body="template<int N> class Tn { public: Tn() {} int get() const { return N; } };\ntypedef Tn<-1> TnNeg;\ntypedef Tn<1> TnPos;\n",
+         control="template<int N> class Tn { public: Tn() {} int get() const { return N; } };\ntypedef Tn<2> TnTwo;\ntypedef Tn<1> TnPos;\n"),
+    dict(id="C03-safe-name-collision", tag="scope", backends=(3,), opts={"promiscuous": 2},
+         body="class A_b { public: A_b() {} int f() const { return 1; } };\n"
+              "class A { public: A() {} class b { public: b() {} int g() const { return 2; } }; };\n",
+         control="class A_c { public: A_c() {} int f() const { return 1; } };\n"
+                 "class A { public: A() {} class b { public: b() {} int g() const { return 2; } }; };\n"),
+    dict(id="C03-safe-name-collision", tag="prop", backends=(3,), opts={"promiscuous": 2},
+         body=MP + "class P_b { public: P_b() {} int get_x() const { return 1; } MAKE_PROPERTY(x, get_x); };\n"
+              "class P { public: P() {} int get_b_x() const { return 2; } MAKE_PROPERTY(b_x, get_b_x); };\n",
+         control=MP + "class P_b { public: P_b() {} int get_x() const { return 1; } MAKE_PROPERTY(x, get_x); };\n"
+                 "class P { public: P() {} int get_c_x() const { return 2; } MAKE_PROPERTY(c_x, get_c_x); };\n"),
+    dict(id="C03-nonpublic-type-in-signature", tag="prot", backends=(1, 2, 3), opts={"promiscuous": 2},
+         body="class Prot { protected: typedef int Handle; public: Prot() {} int take(Handle h) { return h; } };\n",
+         control="class Prot { public: typedef int Handle; Prot() {} int take(Handle h) { return h; } };\n"),
+    dict(id="C03-library-name-not-identifier", tag="lname", backends=(3,), opts={"promiscuous": 2, "libname": "lib-foo.bar"},
+         body=SIMPLE, control=SIMPLE, control_opts={"promiscuous": 2, "libname": "lib_foo_bar"}),
+    dict(id="C03-default-names-private-member", tag="late", backends=(3,), opts={"promiscuous": 2},
+         body="class Late { public: Late() {} int f(int v = kSecret) { return v; } private: static const int kSecret = 5; };\n",
+         control="class Late { public: static const int kOpen = 5; Late() {} int f(int v = kOpen) { return v; } };\n"),
 ]
 
 
 def describe(c):
     return "interrogate %s on a library with {%s}%s" % (
         " ".join(case_options(c)), ", ".join(sorted(f[2:] for f in c["feats"])),
-        " (two libraries)" if len(c["tags"]) == 2 else "")
+        (" (%d libraries%s)" % (len(c["tags"]), {2: ", chain across them, grand-parent not named otherwise",
+                                                  3: ", chain across them"}.get(c.get("xinherit"), "")))
+        if len(c["tags"]) >= 2 else "")
 
 
 def rows_to_cases(rows):
@@ -630,8 +687,8 @@ def rows_to_cases(rows):
         seen.add(key)
         i = len(cases)
         c = dict(id="r%03d" % i, backend=d["backend"], naming=d["naming"],
-                 tags=["A%d" % i, "B%d" % i][:d["libraries"]],
-                 feats={f for f in FEATURES if d[f] == 2}, row=r["row"])
+                 tags=["A%d" % i, "B%d" % i, "C%d" % i][:d["libraries"]],
+                 feats={f for f in FEATURES if d[f] == 2}, xinherit=d["f_xinherit"], row=r["row"])
         for k in FLAGS:
             c[k] = d[k]
         cases.append(c)
@@ -713,7 +770,10 @@ def run_check(ctx):
     have = {(f, x["row"][f], g, x["row"][g]) for x in rows for f in range(nf) for g in range(f + 1, nf)}
     missing = [(rows[0]["names"][f], a, rows[0]["names"][g], b) for f in range(nf) for g in range(f + 1, nf)
                for a in dom[f] for b in dom[g] if (f, a, g, b) not in have]
-    allowed = {("naming", 1, "true_names", 2), ("do_module", 2, "libraries", 2)}
+    # pairs that occur in no valid row (the exclusions of OptLattice.tla and what follows from them)
+    allowed = {("naming", 1, "true_names", 2), ("do_module", 2, "libraries", 2), ("do_module", 2, "libraries", 3),
+               ("libraries", 1, "f_xinherit", 2), ("libraries", 1, "f_xinherit", 3),
+               ("do_module", 2, "f_xinherit", 2), ("do_module", 2, "f_xinherit", 3)}
     if set(missing) - allowed:
         raise MachineryError("covering array incomplete: %r" % sorted(set(missing) - allowed)[:5])
     cases = rows_to_cases(rows)
@@ -737,14 +797,19 @@ def run_check(ctx):
                        collisions=col, collision_case=True))
     # constructs with a known finding (each fails on its own; kept running so that the finding stays true)
     kcases = []
-    for fid, backends, opts, body in KNOWN_CONSTRUCTS:
-        for be in backends:
-            kcases.append(dict(dict(id="k%d%s" % (be, fid[4:12].replace("-", "")), backend=be, naming=1, tags=["K"], feats=set(),
-                                    raw=body, construct=fid), **opts))
-    # an integer literal above LLONG_MAX as default argument (executed)
+    for kc in KNOWN_CONSTRUCTS:
+        for be in kc["backends"]:
+            kcases.append(dict(dict(id="k%d%s" % (be, kc["tag"]), backend=be, naming=1, tags=["K"], feats=set(),
+                                    raw=kc["body"], construct=kc["id"]), **kc["opts"]))
+            kcases.append(dict(dict(id="k%d%sctl" % (be, kc["tag"]), backend=be, naming=1, tags=["K"], feats=set(),
+                                    raw=kc["control"], control_of=kc["id"]), **kc.get("control_opts", kc["opts"])))
+    # an integer literal above LLONG_MAX as default argument (executed); control: LLONG_MAX itself
     kcases.append(dict(id="k3ullmax", backend=3, naming=1, tags=["K"], feats=set(), string=2, promiscuous=2,
                        raw=render_defaults("K", False, extra=[("u1", "unsigned long long v = 18446744073709551615ULL", "v")]),
                        exec_extra=["u1"], construct="C03-default-literal-above-llong-max"))
+    kcases.append(dict(id="k3ullmaxctl", backend=3, naming=1, tags=["K"], feats=set(), string=2, promiscuous=2,
+                       raw=render_defaults("K", False, extra=[("u1", "unsigned long long v = 9223372036854775807ULL", "v")]),
+                       exec_extra=["u1"], control_of="C03-default-literal-above-llong-max"))
     work = ctx.tmp
     rt = runtime_objects(work)
     results = run.pmap(build_case, [(c, work, rt) for c in cases + ccases + kcases], workers=min(NCPU, 12))
@@ -788,6 +853,20 @@ def run_check(ctx):
     ctx.notes["modules_imported"] = sum(1 for r in results if r.get("imported"))
     ctx.notes["default_arguments_executed"] = sum(r.get("defaults_executed", 0) for r in results)
     ctx.notes["known_construct_cases"] = len(kcases)
+    # measured exactness of the finding predicates: in-class cases that fail / controls that pass
+    ex = {}
+    for res in results:
+        c = by_id[res["id"]]
+        fid = c.get("construct") or c.get("control_of")
+        if fid:
+            e = ex.setdefault(fid, dict(in_class=0, in_class_failing=0, controls=0, controls_passing=0))
+            if c.get("construct"):
+                e["in_class"] += 1
+                e["in_class_failing"] += bool(res["fail"])
+            else:
+                e["controls"] += 1
+                e["controls_passing"] += not res["fail"]
+    ctx.notes["finding_predicate_exactness"] = ex
     ctx.notes["wrappers_checked"] = sum(r.get("wrappers", 0) for r in results)
     ctx.notes["wrapper_names_checked"] = sum(r.get("names", 0) for r in results)
     ctx.notes["unique_names_checked"] = sum(r.get("uniq", 0) for r in results)
